@@ -148,7 +148,7 @@ class G:
             return [x / GRID for x in sorted(r.sample(range(0, hi + 1), n))]
         out = set()
         guard = 0
-        while len(out) < n and guard < 200:
+        while len(out) < n and guard < 200 + 6 * n:
             guard += 1
             t = self.raw_time()
             if all(abs(t - u) >= 1e-3 for u in out):
@@ -211,15 +211,15 @@ class G:
         return self.pick([None, mid]), self.pick([None, mid, hi])
 
     # ------------------------------------------------------------- ctor steps
-    def ctor_interval(self, world, name=None, maxn=8):
-        ents = self.interval_entries(maxn)
+    def ctor_interval(self, world, name=None, maxn=None):
+        ents = self.interval_entries(maxn or self.cfg.get("maxn", 8))
         lo, hi = self.span_args(ents)
         return {"op": "IntervalTier", "recv": None,
                 "a": [name or self.name(), self.enc_entries(ents), lo, hi],
                 "out": world.new_handle()}
 
-    def ctor_point(self, world, name=None, maxn=8, distinct=True):
-        ents = self.point_entries(maxn, distinct)
+    def ctor_point(self, world, name=None, maxn=None, distinct=True):
+        ents = self.point_entries(maxn or self.cfg.get("maxn", 8), distinct)
         lo, hi = self.span_args(ents)
         return {"op": "PointTier", "recv": None,
                 "a": [name or self.name(), self.enc_entries(ents), lo, hi],
